@@ -810,20 +810,38 @@ relational_rounds!(c20_pid_matches_standalone_1_round, 1);
 // motor, which gets the PID's output bit-equal] + [round 1 relational: the wrapper's PID has the same gains,
 // command and input getter as the stand-alone one, and is updated exactly once] + [CommandPID::update is a
 // deterministic function of its state and inputs, A1/C11] give equal PID states and equal motor values after it.
-//@ob fn="PIDWrapper::new + <PIDWrapper<T,E> as Updatable<E>>::update" at=src/devices/wrappers.rs:98 cbmc="--max-field-sensitivity-array-size 1024" clause="glue between the two halves of the decomposition: the wrapper produced by the REAL new (Rc-backed shared objects, all arguments symbolic) satisfies the same first-round contract of update for arbitrary terminal slots and motor outcomes"
+//@ob fn="PIDWrapper::new + <PIDWrapper<T,E> as Updatable<E>>::update" at=src/devices/wrappers.rs:98 cbmc="--max-field-sensitivity-array-size 1024" bounded="1 round after new; gain formula PIDKValues::evaluate replaced by a deterministic uninterpreted mix (kani::stub)" clause="glue between the two halves of the decomposition, and what `new` hands to its CommandPID: the wrapper produced by the REAL new (Rc-backed shared objects, all arguments symbolic) satisfies the same first-round contract of update for arbitrary terminal slots and motor outcomes, and the value its motor receives equals bit for bit the output of a stand-alone CommandPID::new(state getter, initial_command, kvalues) fed the same data -- i.e. new passed exactly these gains, this command and the state getter to its PID"
 #[kani::proof]
 #[kani::unwind(3)]
+#[kani::stub(PIDKValues::evaluate, stub_pidk_evaluate)]
 fn c20_pid_real_new_then_update() {
     let t0: Time = kani::any();
     let s0: State = kani::any();
     let c0: Command = kani::any();
     let k: PositionDerivativeDependentPIDKValues = kani::any();
     let mut w = PIDWrapper::new(Motor::any(), t0, s0, c0, k);
+    // stand-alone twin on locals
+    let mut clock2: Time = t0;
+    let time2 = rf(&mut clock2);
+    let mut sg2: SG = ConstantGetter::new(time2.clone(), s0);
+    let state2 = rf(&mut sg2);
+    let mut cg2: CG = ConstantGetter::new(time2.clone(), c0);
+    let command2 = rf(&mut cg2);
+    let mut pid2_obj: Pid = CommandPID::new(state2.clone(), c0, k);
+    let pid2 = rf(&mut pid2_obj);
+    pid2.borrow_mut().follow(to_dyn!(Getter<Command, Er>, command2.clone()));
     fresh_terminal_data(&w);
     let want = sees(&w.terminal);
     let pre = held(&w);
     let res = w.update();
     pid_round_post(&pre, &want, &w, &res);
+    standalone_feed(&time2, &state2, &command2, &pid2, &want);
+    let twin = pid_now(&pid2);
+    assert!(odf_eq(&pid_now(&w.pid), &twin));
+    match twin {
+        Some(d) => assert!(w.inner.n_set == 1 && of32_eq(&w.inner.got, &Some(d.value))),
+        None => assert!(w.inner.n_set == 0),
+    }
     kani::cover!(want.is_some() && w.inner.n_set == 1 && res.is_ok(), "motor driven");
     kani::cover!(want.is_none(), "no terminal data");
     reach!();
